@@ -65,6 +65,11 @@ pub fn table() -> Vec<(&'static str, String, Want)> {
         ("octal-and-hex-escapes-denote-bytes", m("    p(\"\\101\\x42\")\n"), Want::Ok("AB\n")),
         ("surrogate-half-escape-is-illegal", m("    p(\"\\ud800\")\n"), Want::Reject("syntax")),
         ("octal-escape-above-255-is-illegal", m("    p(\"\\400\")\n"), Want::Reject("syntax")),
+        // --- conversions to string (spec: Conversions to and from a string type)
+        ("byte-slice-to-string", m("    var b []uint8\n    b = append(b, 104)\n    b = append(b, 195)\n    b = append(b, 169)\n    p(string(b))\n"), Want::Ok("h\u{e9}\n")),
+        ("byte-to-string-is-a-code-point", m("    var c uint8 = 233\n    p(string(c))\n"), Want::Ok("\u{e9}\n")),
+        ("indexing-a-string-constant-yields-a-byte", m("    var n uint8 = 11\n    var b []uint8\n    b = append(b, \"0123456789abcdef\"[n])\n    p(string(b))\n"), Want::Ok("b\n")),
+        ("loop-carried-accumulator", m("    var out []uint8\n    var i int32 = 0\n    for {\n        if i >= 3 {\n            break\n        }\n        out = append(out, 97)\n        i = i + 1\n    }\n    p(string(out))\n"), Want::Ok("aaa\n")),
         // --- calls and returns (spec: Calls; Return statements; Terminating statements)
         ("too-many-arguments", with("func f(a int32) int32 {\n    return a\n}\n", "    p(i2s(f(1, 2)))\n"), Want::Reject("call")),
         ("too-few-arguments", with("func f(a int32, b int32) int32 {\n    return a + b\n}\n", "    p(i2s(f(1)))\n"), Want::Reject("call")),
